@@ -123,7 +123,7 @@ Qed.
 
 (* BinArchive::serialize with the header size (file size, position of the data = 16 bytes of fields + zero fill)
    and the alignment of the c-string pool as parameters *)
-Definition serialize_p (hsz_size hsz_seek al : N) (m : mode) (a : archive) : outcome bytes :=
+Definition serialize_p (kf : name_key) (hsz_size hsz_seek al : N) (m : mode) (a : archive) : outcome bytes :=
   let e := a_endian a in
   let dlen := size a in
   let cs := isort (fun x y : bytes * list N => bytes_leb (fst x) (fst y)) (a_cstrs a) in
@@ -132,7 +132,7 @@ Definition serialize_p (hsz_size hsz_seek al : N) (m : mode) (a : archive) : out
   let pointers := isort (fun x y : N * N => fst x <=? fst y) (a_ptrs a ++ cptrs) in
   d1 <- poke_all e (a_data a) pointers ;;
   let raw_pointers1 := map fst pointers in
-  let labels := isort (match e with BE => label_leb_be | LE => label_leb_le end) (a_labels a) in
+  let labels := isort (label_leb kf e) (a_labels a) in
   let '(tpool1, raw_labels) := emit_labels labels pool_empty [] in
   let text := isort (fun x y : N * bytes => fst x <=? fst y) (a_text a) in
   let text_start := dlen + lenN raw_cstrings
@@ -146,9 +146,9 @@ Definition serialize_p (hsz_size hsz_seek al : N) (m : mode) (a : archive) : out
       ++ enc e 4 (trunc_w 32 (N.of_nat (List.length raw_labels) / 2)) ++ zeros (N.to_nat (hsz_seek - 16))
       ++ d2 ++ raw_cstrings ++ u32s e raw_pointers ++ u32s e raw_labels ++ p_raw tpool2).
 
-Theorem src_BIN_HEADER_agrees_serialize : forall m a,
-  BinFormat.serialize m a = serialize_p (cb 8) (cb 9) (cb 10) m a.
-Proof. intros m a. reflexivity. Qed.
+Theorem src_BIN_HEADER_agrees_serialize : forall kf m a,
+  BinFormat.serialize_k kf m a = serialize_p kf (cb 8) (cb 9) (cb 10) m a.
+Proof. intros kf m a. reflexivity. Qed.
 
 (* reader and writer use one header size *)
 Theorem src_BIN_HEADER_agrees_coherent :
